@@ -504,8 +504,18 @@ def clip(
     if np.__version__ < "2.1.0" and a_min is None and a_max is None:  # pragma: no cover
         raise ValueError("`a_min` and `a_max` cannot both be set to `None`")
 
+    # `clip` is evaluated in two steps; make sure that the second one cannot
+    # fail on incompatible shapes after the first one has already taken effect
+    np.broadcast_shapes(
+        *(np.shape(i) for i in (a, a_min, a_max, out) if i is not None)
+    )
+
     if a_min is not None:
-        a = maximum(a_min, a, out=out, constant=constant)
+        # `out` is only written to by the final step: once it is the output of the first
+        # step it is read-only (memory-guarded) for the second one
+        a = maximum(
+            a_min, a, out=(out if a_max is None else None), constant=constant
+        )
 
     if a_max is not None:
         a = minimum(a_max, a, out=out, constant=constant)
